@@ -147,14 +147,17 @@ PROPS = {
         "rule": "comp: exhaustive over all strings of length <=5 over {space, \", ', \\, $, (, a, e-acute}: escape+unescape in the three "
                 "quoting contexts; extract_word with the cursor at the end of every string of length <=6 (thorough <=7) over that "
                 "alphabet (= every split point of every longer one) with escape char, <=4 without, every byte position (boundary "
-                "or not, past the end) of the strings <=3, plus 20 000 (thorough 200 000) random lines <=14 over a richer alphabet. "
+                "or not, past the end) of the strings <=3, plus 10 000 (thorough 100 000) lines made of bare words, blanks and closed "
+                "quoted segments ending in backslash runs (D26 shape; the public helper is judged against its quote-blind contract), plus 20 000 (thorough 200 000) random lines <=14 over a richer alphabet. "
                 "clcp: every candidate list of <=2 (thorough <=3) strings out of the 31 strings <=2 over {a, e-acute, e-grave, U+6F22, U+6F23} "
                 "(shared first bytes), plus 30 000 (thorough 200 000) random stem+tail lists. "
                 "cfs: FilenameCompleter::complete_path in real temporary directories (current directory = the temp dir): "
                 "(1) a fixed 16-entry tree x every line <=5 (thorough <=6) over the alphabet with the cursor at the end, x directory parts "
-                "typed bare and in both quotes; (2) every name of length <=3 (thorough <=4) over the alphabet created as file or "
-                "directory (batches of 6 + a sub-directory) x every split point x {bare, double, single quote} x 13 typed "
-                "prefixes (typical ones, escaped/unescaped blanks after backslash runs, closed quotes); (3) 400 (thorough 4000) random "
+                "typed bare and in both quotes, plus 3000 (thorough 30 000) lines = segment-built prefix (blanks, bare words, closed quoted "
+                "segments ending in backslash runs, possibly directly before the word: D26) + a typed partial name of the tree, three contexts; (2) every name of length <=3 (thorough <=4) over the alphabet created as file or "
+                "directory (batches of 6 + a sub-directory) x every split point x {bare, double, single quote} x 17 typed "
+                "prefixes (typical ones, escaped/unescaped blanks after backslash runs, closed quotes, closed quotes ending in "
+                "backslashes directly before the word); (3) 400 (thorough 4000) random "
                 "trees of names <=6 over a richer alphabet (tab, backquote, =, ;, |, &, CJK, emoji, combining mark) x 25 typed lines. "
                 "Each candidate is re-completed from the inserted text. distinct = hash of the request; trivial = empty word / "
                 "no prefix / no candidate.",
@@ -168,18 +171,27 @@ PROPS = {
             "feature with-dirs (~ expansion), absolute paths, '.'/'..' components, non-UTF-8 names, unreadable entries: not claimed",
             "Pair ordering by display modelled as code-point order (= byte order of UTF-8)"],
         "level_text": "Unbounded Lean theorems about the model of src/completion.rs: unescape(escape s) = s for every text and break set "
-                      "containing the escape char; extract_word and find_unclosed_quote recover exactly the inserted replacement after "
-                      "any syntactically unquoted / closed prefix; complete_path's parse step reads a replacement back to the same path and the model of complete_path offers the entry "
+                      "containing the escape char; the completer's own word scan bare_word_start (forward, since the repair of D26) is in the same mode as "
+                      "find_unclosed_quote at the cursor for every line and break set, starts the word exactly where the declarative reader does on "
+                      "every line, never slices off a boundary, and complete_path's parse step returns the reader's word on every plain bare line "
+                      "(C15_scanners_agree, C15_word_start_is_readers, C15_bare_word_total, C15_completer_word_agrees, C15_completer_parse_agrees); "
+                      "the scan and find_unclosed_quote recover exactly the inserted replacement after any prefix that the scan itself leaves "
+                      "bare / closed (decidable; composes over break characters); the public helper extract_word (unchanged reverse scan) does so "
+                      "after a syntactically unquoted prefix (C15_extract_inverts); complete_path's parse step reads a replacement back to the same path and the model of complete_path offers the entry "
                       "again with the same replacement (three contexts); "
                       "longest_common_prefix (byte loop + back-off) returns a common prefix on a character boundary and the longest one. "
                       "The model is tied to the code by exhaustive + random differential runs of the public functions and of "
                       "complete_path on real directories, with the declarative reader (Rl.Spec.Completion.lex) as oracle.",
         "level_note": "Trusted: Lean kernel; harness/diff; the copy of the two private character sets in the harness; OS directory "
                       "listing passed as data. Reading decisions: a bare backslash before a character that needs no escape, and a "
-                      "line cut right after a bare backslash, are outside the claim (oracle answers '-').",
-        "unproved": ["C15_word_agrees_statement: extract_word agrees with the declarative reader on every plain bare line - false on "
-                     "the current tree (C15_word_agrees_counterexample, known finding D26); proved instead: C15_extract_inverts under "
-                     "the decidable prefix hypothesis C15_unquoted"],
+                      "line cut right after a bare backslash, are outside the claim (oracle answers '-'). The public extract_word is "
+                      "judged against its documented contract (break and escape characters only, quotes not interpreted), the completer "
+                      "against the quote-aware reader.",
+        "unproved": ["C15_word_agrees_statement: the PUBLIC helper extract_word agrees with the quote-aware declarative reader on every plain "
+                     "bare line - false by design of the helper (documented quote-blind reverse scan; C15_word_agrees_counterexample, line '\\'a). "
+                     "The completer no longer uses the helper (D26 fixed): the same statement about the completer is proved "
+                     "(C15_completer_word_agrees, C15_completer_parse_agrees); the helper is proved correct under the decidable prefix "
+                     "hypothesis C15_unquoted (C15_extract_inverts) and checked against the quote-blind reader expectedWordHelper"],
         "assumptions": ["typed text uses backslash escapes only where the completer itself would write them (plain lines)",
                         "directory candidates are re-completed from the inserted text without its trailing separator"],
     },
